@@ -5,10 +5,12 @@ import (
 	"fmt"
 	"math"
 	"sort"
+	"time"
 
 	"pgregory.net/rapid"
 
 	beacon "github.com/oasisprotocol/oasis-core/go/beacon/api"
+	"github.com/oasisprotocol/oasis-core/go/common"
 	"github.com/oasisprotocol/oasis-core/go/common/cbor"
 	"github.com/oasisprotocol/oasis-core/go/common/crypto/signature"
 	"github.com/oasisprotocol/oasis-core/go/common/node"
@@ -19,10 +21,11 @@ import (
 	governanceState "github.com/oasisprotocol/oasis-core/go/consensus/cometbft/apps/governance/state"
 	registryState "github.com/oasisprotocol/oasis-core/go/consensus/cometbft/apps/registry/state"
 	stakingState "github.com/oasisprotocol/oasis-core/go/consensus/cometbft/apps/staking/state"
-	"github.com/oasisprotocol/oasis-core/go/storage/mkvs"
 	governance "github.com/oasisprotocol/oasis-core/go/governance/api"
 	registry "github.com/oasisprotocol/oasis-core/go/registry/api"
+	scheduler "github.com/oasisprotocol/oasis-core/go/scheduler/api"
 	staking "github.com/oasisprotocol/oasis-core/go/staking/api"
+	"github.com/oasisprotocol/oasis-core/go/storage/mkvs"
 	vault "github.com/oasisprotocol/oasis-core/go/vault/api"
 )
 
@@ -203,7 +206,7 @@ func (g *TxGen) Gen(t *rapid.T) *TxDesc {
 	kinds := []string{"transfer", "transfer", "burn", "escrow", "escrow", "reclaim", "reclaim", "allow", "withdraw", "amend", "proposal", "vote", "vote",
 		"vaultCreate", "vaultAction", "refresh", "unfreeze", "freshness", "deregister", "foreign"}
 	if g.Profile == "hostile" {
-		kinds = append(kinds, "garbage", "garbage", "system", "oversized", "truncated")
+		kinds = append(kinds, "garbage", "garbage", "system", "oversized", "truncated", "newruntime", "newruntime")
 	}
 	kind := rapid.SampledFrom(kinds).Draw(t, "kind")
 	switch kind {
@@ -334,13 +337,86 @@ func (g *TxGen) Gen(t *rapid.T) *TxDesc {
 		method, body = registry.MethodProveFreshness, blob
 	case "deregister":
 		method, body = registry.MethodDeregisterEntity, &registry.DeregisterEntity{}
+	case "newruntime":
+		// a new compute runtime registered by an entity (deployment in the future, as required for new runtimes)
+		rt := g.NewRuntimeDescriptor(t, a)
+		method, body = registry.MethodRegisterRuntime, rt
 	default:
 		// methods the harness cannot build validly: must fail cleanly
 		m := rapid.SampledFrom([]string{"beacon.SetEpoch", "beacon.VRFProve", "keymanager.UpdatePolicy", "roothash.ExecutorCommit", "staking.Nope", "x"}).Draw(t, "foreignMethod")
 		method, body = transaction.MethodName(m), map[string]int{"a": 1}
 		note = "unbuildable method"
 	}
+	if g.Profile == "hostile" && rapid.IntRange(0, 3).Draw(t, "altenc") == 0 {
+		// the same body in an alternative CBOR encoding a lenient decoder may accept (byte strings as integer arrays)
+		if alt, changed := AltEncode(t, body); changed {
+			body, note = alt, note+" alt-encoded"
+		}
+	}
 	return g.finish(t, a, acct, method, body, kind, note)
+}
+
+// AltEncode re-encodes a transaction body with some byte strings (<= 64 bytes) written as CBOR arrays of
+// integers, optionally one element longer or shorter. Fixed-size byte array types are filled from such
+// arrays by the decoder without going through their own validation.
+func AltEncode(t *rapid.T, body any) (cbor.RawMessage, bool) {
+	var generic any
+	if err := cbor.Unmarshal(cbor.Marshal(body), &generic); err != nil {
+		return nil, false
+	}
+	changed := false
+	var walk func(v any) any
+	walk = func(v any) any {
+		switch x := v.(type) {
+		case []byte:
+			if len(x) == 0 || len(x) > 64 || rapid.IntRange(0, 2).Draw(t, "altThis") != 0 {
+				return x
+			}
+			changed = true
+			arr := make([]any, 0, len(x)+1)
+			for _, b := range x {
+				arr = append(arr, uint64(b))
+			}
+			switch rapid.IntRange(0, 5).Draw(t, "altLen") {
+			case 0:
+				arr = append(arr, uint64(1))
+			case 1:
+				arr = arr[:len(arr)-1]
+			case 2, 3:
+				// (leading bytes often carry flags / type tags)
+				hi := len(arr) - 1
+				if rapid.Bool().Draw(t, "altHead") && hi > 7 {
+					hi = 7
+				}
+				arr[rapid.IntRange(0, hi).Draw(t, "altPos")] = uint64(rapid.IntRange(0, 255).Draw(t, "altVal"))
+			}
+			return arr
+		case map[any]any:
+			keys := make([]string, 0, len(x))
+			byName := map[string]any{}
+			for k := range x {
+				ks := fmt.Sprint(k)
+				keys = append(keys, ks)
+				byName[ks] = k
+			}
+			sort.Strings(keys)
+			for _, ks := range keys {
+				x[byName[ks]] = walk(x[byName[ks]])
+			}
+			return x
+		case []any:
+			for i := range x {
+				x[i] = walk(x[i])
+			}
+			return x
+		}
+		return v
+	}
+	out := walk(generic)
+	if !changed {
+		return nil, false
+	}
+	return cbor.Marshal(out), true
 }
 
 func (g *TxGen) nodeActor(t *rapid.T, a *Actor) *Actor {
@@ -501,3 +577,33 @@ func (v *View) KV() mkvs.ImmutableKeyValueTree { return v.cx.State() }
 // Bump records that one more transaction of addr (expected to pass authentication) precedes the
 // ones generated next in the same block.
 func (g *TxGen) Bump(addr staking.Address) { g.nonceAdd[addr]++ }
+
+// NewRuntimeDescriptor builds the descriptor of a further compute runtime governed by the signer's entity (or by
+// entity 0 when the signer is not an entity).
+func (g *TxGen) NewRuntimeDescriptor(t *rapid.T, a *Actor) *registry.Runtime {
+	owner := g.W.Entities[0]
+	if a.Entity != nil {
+		owner = a.Entity
+	}
+	var id common.Namespace
+	copy(id[8:], []byte("verif-extra-rt"))
+	id[31] = byte(rapid.IntRange(0, 3).Draw(t, "rtIdx"))
+	return &registry.Runtime{
+		Versioned:       cborV(registry.LatestRuntimeDescriptorVersion),
+		ID:              id,
+		EntityID:        owner.Signer.Public(),
+		Kind:            registry.KindCompute,
+		TEEHardware:     node.TEEHardwareInvalid,
+		Executor:        registry.ExecutorParameters{GroupSize: 1, GroupBackupSize: 1, RoundTimeout: 3, MaxMessages: 8},
+		TxnScheduler:    registry.TxnSchedulerParameters{BatchFlushTimeout: time.Second, MaxBatchSize: 10, MaxBatchSizeBytes: 1 << 16, ProposerTimeout: 2 * time.Second},
+		AdmissionPolicy: registry.RuntimeAdmissionPolicy{AnyNode: &registry.AnyNodeRuntimeAdmissionPolicy{}},
+		Constraints: map[scheduler.CommitteeKind]map[scheduler.Role]registry.SchedulingConstraints{
+			scheduler.KindComputeExecutor: {
+				scheduler.RoleWorker:       {MinPoolSize: &registry.MinPoolSizeConstraint{Limit: 1}},
+				scheduler.RoleBackupWorker: {MinPoolSize: &registry.MinPoolSizeConstraint{Limit: 1}},
+			},
+		},
+		GovernanceModel: registry.GovernanceEntity,
+		Deployments:     []*registry.VersionInfo{{ValidFrom: g.V.Epoch + beacon.EpochTime(rapid.IntRange(1, 3).Draw(t, "rtValidFrom"))}},
+	}
+}
